@@ -21,8 +21,6 @@ use mp3_metadata::MP3Metadata;
 use regex::Regex;
 #[cfg(all(unix, feature = "users"))]
 use uzers::{Groups, Users, UsersCache};
-#[cfg(unix)]
-use xattr::FileExt;
 
 use crate::config::Config;
 use crate::expr::Expr;
@@ -1564,11 +1562,10 @@ impl<'a> Searcher<'a> {
             Field::HasXattrs => {
                 #[cfg(unix)]
                 {
-                    if let Ok(file) = fs::File::open(entry.path()) {
-                        if let Ok(xattrs) = file.list_xattr() {
-                            let has_xattrs = xattrs.count() > 0;
-                            return Variant::from_bool(has_xattrs);
-                        }
+                    // the entry's own attributes, read by path: a link is not followed, nothing is opened
+                    if let Ok(xattrs) = xattr::list(entry.path()) {
+                        let has_xattrs = xattrs.count() > 0;
+                        return Variant::from_bool(has_xattrs);
                     }
                 }
 
@@ -1580,12 +1577,10 @@ impl<'a> Searcher<'a> {
             Field::Capabilities => {
                 #[cfg(target_os = "linux")]
                 {
-                    if let Ok(file) = fs::File::open(entry.path()) {
-                        if let Ok(Some(caps_xattr)) = file.get_xattr("security.capability") {
-                            let caps_string =
-                                crate::util::capabilities::parse_capabilities(caps_xattr);
-                            return Variant::from_string(&caps_string);
-                        }
+                    if let Ok(Some(caps_xattr)) = xattr::get(entry.path(), "security.capability") {
+                        let caps_string =
+                            crate::util::capabilities::parse_capabilities(caps_xattr);
+                        return Variant::from_string(&caps_string);
                     }
                 }
 
